@@ -376,3 +376,28 @@ package grpc
 //@   assert at call updateState#1 arg1 == s && arg2 == lastErr
 //@   assert at call updateState#1 ac.state == s
 //@   assert at call updateState#1 old(ac.state) != old(s)
+
+// ---- C30 / C20: one connection attempt of a subchannel -------------------------------------------------
+//
+// resetTransportAndUnlock works for the attempt whose context it captured on
+// entry (acCtx). updateAddrs / tearDown cancel that context (and may install a
+// new one in ac.ctx for a new attempt), so every "was this attempt abandoned?"
+// test must look at the CAPTURED context; an abandoned attempt reports nothing.
+// CONNECTING is reported before dialling; TRANSIENT_FAILURE only after all
+// addresses failed and the attempt is still current; IDLE after the backoff only
+// if it still is; success resets the backoff index.
+
+//@ func (*addrConn).resetTransportAndUnlock
+//@   prop C30 C20
+//@   requires ac != nil
+//@   assert at call Err#1 recv == acCtx
+//@   assert at call Err#2 recv == acCtx
+//@   assert at call Err#3 recv == acCtx
+//@   assert at call Done#1 recv == acCtx
+//@   assert at call Backoff#1 arg0 == ac.backoffIdx
+//@   assert at call updateConnectivityState#1 arg0 == ac && arg1 == connectivity.Connecting && arg2 == nil && lastret("Err") == 0 && ncalls("tryAllAddrs") == 0
+//@   assert at call tryAllAddrs#1 arg0 == ac && arg1 == acCtx && sameslice(arg2, addrs)
+//@   assert at call updateConnectivityState#2 arg0 == ac && arg1 == connectivity.TransientFailure && arg2 == err && err != nil && lastret("Err") == 0 && ncalls("Err") == 2
+//@   assert at call NewTimer#1 arg0 == backoffFor
+//@   assert at call updateConnectivityState#3 arg0 == ac && arg1 == connectivity.Idle && lastret("Err") == 0 && ncalls("Err") == 3
+//@   assert at return end ac.backoffIdx == 0 && lastret("tryAllAddrs") == 0
